@@ -10,6 +10,7 @@ import Gleece.Driver.Annot
 import Gleece.Driver.IRHandler
 import Gleece.Driver.ReduceCheck
 import Gleece.Driver.Cfg
+import Gleece.Driver.Rig
 open Lean Gleece.Driver
 
 def handlers : List (String × Handler) := [
@@ -18,7 +19,8 @@ def handlers : List (String × Handler) := [
   ("annot", annotHandler),
   ("ir", irHandler),
   ("proj", projHandler3),
-  ("cfg", cfgHandler)
+  ("cfg", cfgHandler),
+  ("rig", rigHandler)
 ]
 
 def processLine (prop : String) (line : String) (implLine : Option String) : Json :=
